@@ -142,7 +142,8 @@ def extract(f, target=None, max_paths=4096, start=0, stop=(), value_at=None, loo
         t = blk["t"]
         k = t["k"]
         if k == "return":
-            if target is not None:
+            if target is not None or value_at is not None:
+                # the target / observation point was not reached on this path
                 paths.append((conds, ("const", False)))
             else:
                 v = env.get(0)
